@@ -5,7 +5,10 @@
 //	kind      := basic | hook | ctl | nodata
 //	behaviour := ok | fail | sig | fork | nobin | ign      (basic, hook: child scripts / the vh binary in child mode)
 //	           | noport | nobin | occ | occstay | occign | occfork | occfail   (ctl; occ* = fake OCC device)
+//	           | noportfork | noportkid | noportkidt | noportign | noportmix   (ctl: never opens its port, and its
+//	             process GROUP has members with signal dispositions of their own — runner.go groupOf)
 //	op        := launch | tick | start | stop | conf | trigger | kill | await
+//	           | giveup      the gRPC dial of a controllable task's Launch gives up (30 s): launch failure
 //	           | (par A B)   A, B requests (start stop conf trigger kill): B is delivered while A is being served
 //	shape     := sh | sha | ex | exa      how the command reaches prepareTaskCmd (TaskCommandInfo.Shell / .Arguments):
 //	             sh  = through /bin/sh -c, no arguments      sha = through /bin/sh -c, value + arguments
@@ -17,7 +20,9 @@
 // Every op is one event delivered to the REAL executor event loop (LAUNCH, MESSAGE
 // transition/trigger, KILL) or one asynchronous happening made deterministic:
 // `tick` = the 200 ms TASK_RUNNING timer of a basic/hook task fires (ctl: the device
-// became ready), `await` = the latest child ends on its own and is reaped.
+// became ready), `await` = the latest child ends on its own and is reaped (a controllable task that is still
+// dialling: nobody reaps it), `giveup` = the dial of a controllable task that never opened its control port gives
+// up, the launch failure is reported and the Launch goroutine terminates the task's process group.
 //
 // Obs    : ((res r…) (emits e…) (alive 0|1|-))
 //
@@ -39,6 +44,7 @@ import (
 	"regexp"
 	"strconv"
 	"strings"
+	"sync"
 	"syscall"
 	"time"
 
@@ -79,6 +85,9 @@ type caseOut struct {
 	obs          string
 	hang         bool
 	inconclusive string
+	// processes of the task were alive at the end of a schedule in which the executor gave the task up (`giveup`):
+	// like a hang, an observation only when it reproduces
+	leftAlive bool
 }
 
 func runOnce(input string) (caseOut, error) {
@@ -147,7 +156,7 @@ loop:
 	emits := sx.L(sx.A("emits"))
 	alive := "-"
 	sigs := sx.L(sx.A("sigs"))
-	done, hang, notimer := false, -1, false
+	done, hang, notimer, gaveUp := false, -1, false, false
 	var emitAt []int // number of emits when op i began
 	var opName []string
 	for _, l := range all {
@@ -172,6 +181,9 @@ loop:
 				return caseOut{}, fmt.Errorf("bad RES line %q", l)
 			}
 			res.Add(n)
+			if k, err := strconv.Atoi(f[1]); err == nil && k < len(opName) && opName[k] == "giveup" && f[2] == "ok" {
+				gaveUp = true
+			}
 		case "HANG":
 			hang, _ = strconv.Atoi(f[1])
 			res.Add(sx.A("hang"))
@@ -223,7 +235,7 @@ loop:
 		sigs = sx.L(sx.A("sigs"))
 	}
 	obs := sx.L(res, emits, sx.L(sx.A("alive"), sx.A(alive)), sigs).String()
-	return caseOut{obs: obs, hang: hang >= 0 || notimer}, nil
+	return caseOut{obs: obs, hang: hang >= 0 || notimer, leftAlive: alive == "1" && gaveUp}, nil
 }
 
 func lastLines(s string, n int) string {
@@ -234,7 +246,7 @@ func lastLines(s string, n int) string {
 	return strings.Join(ls, " / ")
 }
 
-func runImpl(input string) (string, error) {
+func runNow(input string) (string, error) {
 	o, err := runOnce(input)
 	if err != nil {
 		return "", err
@@ -249,17 +261,80 @@ func runImpl(input string) (string, error) {
 			return "", fmt.Errorf("%s: %s", o.inconclusive, input)
 		}
 	}
-	if o.hang {
-		// a hang is an observation only when it reproduces
+	if o.hang || o.leftAlive {
+		// a hang — and what is still alive after the window given to the executor's own escalation — is an
+		// observation only when it reproduces
 		o2, err := runOnce(input)
 		if err != nil {
 			return "", err
 		}
 		if o2.obs != o.obs {
-			return "", fmt.Errorf("hang did not reproduce: %s", input)
+			return "", fmt.Errorf("hang / survivors of a given-up launch did not reproduce: %s", input)
 		}
 	}
 	return o.obs, nil
+}
+
+// ---- cases that wait for the dial timeout ---------------------------------------------------------------------
+//
+// A schedule with `giveup` on a task that never opens its port lasts GRPC_DIAL_TIMEOUT (30 s, a constant of the
+// code under test) plus the escalation. Such a case does nothing but sleep: the ones the generator produced are
+// started in the background as soon as the first case of the run is asked for (each in its own process, like every
+// case), at most `preWidth` at a time, and sit at the END of the case list — when a worker gets there the
+// observation is usually waiting. Any other input (corpus, shrinking, a second seed) is run on the spot.
+
+type future struct {
+	done chan struct{}
+	obs  string
+	err  error
+}
+
+var (
+	preMu    sync.Mutex
+	preWant  []string
+	preFut   = map[string]*future{}
+	preWidth = 16
+	preSem   chan struct{}
+)
+
+func registerSlow(inputs []string) {
+	preMu.Lock()
+	preWant = append(preWant, inputs...)
+	preMu.Unlock()
+}
+
+func startPrefetch() {
+	preMu.Lock()
+	defer preMu.Unlock()
+	if preSem == nil {
+		preSem = make(chan struct{}, preWidth)
+	}
+	for _, in := range preWant {
+		if preFut[in] != nil {
+			continue
+		}
+		f := &future{done: make(chan struct{})}
+		preFut[in] = f
+		go func(in string, f *future) {
+			preSem <- struct{}{}
+			f.obs, f.err = runNow(in)
+			<-preSem
+			close(f.done)
+		}(in, f)
+	}
+	preWant = nil
+}
+
+func runImpl(input string) (string, error) {
+	startPrefetch()
+	preMu.Lock()
+	f := preFut[input]
+	preMu.Unlock()
+	if f != nil {
+		<-f.done
+		return f.obs, f.err
+	}
+	return runNow(input)
 }
 
 var basicBehs = []string{"ok", "fail", "sig", "fork", "nobin"}
@@ -332,6 +407,12 @@ func mkCase(kind, beh string, ops []string, shape string) fw.Case {
 	}
 	if len(tags) > 0 {
 		tags = append(tags, "class=overlap")
+	}
+	if contains(ops, "giveup") {
+		tags = append(tags, "class=giveup")
+	}
+	if lead, members, ok := groupOf(beh); ok && kind == "ctl" && beh != "noport" {
+		tags = append(tags, "class=unready-group", "group="+lead+"+"+strings.Join(members, "+"))
 	}
 	n := len(ops)
 	lt := "len>=5"
@@ -457,6 +538,83 @@ func overlapCases(tier string, r *rng.R) []fw.Case {
 		add(q, kind, beh, ops)
 	}
 	return cs
+}
+
+// behaviours of a controllable task that never opens its control port: the process group the executor has to
+// terminate when it gives the launch up (runner.go groupOf: leader + members, each obeying / ignoring SIGTERM /
+// ignoring SIGTERM and SIGINT)
+var unreadyBehs = []string{"noport", "noportfork", "noportkid", "noportkidt", "noportign", "noportmix"}
+
+// giveupCases: the class CONTROLLABLE TASKS THAT NEVER BECOME READY, WHOSE PROCESS GROUP HAS MEMBERS WITH SIGNAL
+// DISPOSITIONS OF THEIR OWN — in every way such a task can end: the launch fails (`giveup`: the dial gives up after
+// GRPC_DIAL_TIMEOUT, TASK_FAILED, TERM/INT/KILL over the group), the group leader ends on its own first (`await`:
+// nobody reaps it) and the launch fails then, a KILL or a STOP arrives while the executor is still dialling, and
+// requests after the failure. "No survivors" is about every process of the task, not about its leader.
+// fast: schedules without the dial timeout; slow: the ones that wait for it (>= 30 s each: run in the background,
+// see startPrefetch). Also `giveup` where no dial is in progress (every other kind and behaviour: nothing happens).
+func giveupCases(tier string, r *rng.R) (fast, slow []fw.Case) {
+	thorough := tier == "thorough"
+	add := func(kind, beh string, ops []string, shape string) {
+		c := mkCase(kind, beh, ops, shape)
+		if kind == "ctl" && unready(beh) && contains(ops, "giveup") {
+			slow = append(slow, c)
+		} else {
+			fast = append(fast, c)
+		}
+	}
+	pick := func(q *rng.R, kind, beh string) string { return rng.Pick(q, shapesFor(kind, beh)) }
+	// the ways to end that do not wait for the dial
+	quickEnds := [][]string{{}, {"await"}, {"kill"}, {"stop"}, {"await", "kill"}}
+	for _, beh := range unreadyBehs[1:] {
+		for _, ops := range quickEnds {
+			if thorough {
+				for _, sh := range shapesFor("ctl", beh) {
+					add("ctl", beh, ops, sh)
+				}
+			} else {
+				add("ctl", beh, ops, pick(r.Fork(), "ctl", beh))
+			}
+		}
+		if !thorough {
+			for _, sh := range shapesFor("ctl", beh) {
+				add("ctl", beh, []string{"await", "conf"}, sh)
+			}
+		}
+	}
+	// the launch failure, alone and after the leader has ended on its own: every group
+	slowEnds := [][]string{{"giveup"}, {"await", "giveup"}}
+	if thorough {
+		slowEnds = append(slowEnds, []string{"stop", "giveup", "kill"}, []string{"giveup", "giveup", "await"}, []string{"conf", "giveup", "stop"})
+	}
+	for _, beh := range unreadyBehs {
+		for _, ops := range slowEnds {
+			if thorough {
+				for _, sh := range shapesFor("ctl", beh) {
+					add("ctl", beh, ops, sh)
+				}
+			} else {
+				add("ctl", beh, ops, pick(r.Fork(), "ctl", beh))
+			}
+		}
+	}
+	// requests around the failure (quick tier: four drawn; the thorough tier has them for every group above)
+	if !thorough {
+		for i := 0; i < 4; i++ {
+			q := r.Fork()
+			beh := rng.Pick(q, unreadyBehs)
+			pre := rng.Pick(q, [][]string{{"stop"}, {"conf"}, {"trigger"}, {"tick"}, {"await"}})
+			suf := rng.Pick(q, [][]string{{"kill"}, {"stop"}, {"giveup"}, {"await"}, {"kill", "conf"}})
+			add("ctl", beh, append(append(append([]string{}, pre...), "giveup"), suf...), pick(q, "ctl", beh))
+		}
+	}
+	// no dial in progress: `giveup` is not a happening of these tasks
+	add("ctl", "occ", []string{"giveup", "kill"}, pick(r.Fork(), "ctl", "occ"))
+	add("ctl", "occfork", []string{"conf", "giveup", "await"}, pick(r.Fork(), "ctl", "occfork"))
+	add("ctl", "nobin", []string{"giveup"}, pick(r.Fork(), "ctl", "nobin"))
+	add("basic", "ok", []string{"giveup", "start", "giveup", "stop"}, pick(r.Fork(), "basic", "ok"))
+	add("hook", "ok", []string{"tick", "giveup", "trigger"}, pick(r.Fork(), "hook", "ok"))
+	add("nodata", "ok", []string{"giveup"}, "sh")
+	return fast, slow
 }
 
 // expensive reports schedules that are slow by construction (escalation timers).
@@ -589,7 +747,19 @@ func generate(tier string, r *rng.R) []fw.Case {
 	}
 	// the class "overlapping requests" (drawn after everything else: the stream above is unchanged)
 	cs = append(cs, overlapCases(tier, r)...)
-	return append(slowCs, cs...)
+	// the class "never ready, group with dispositions of its own" (drawn last). The cases that wait for the dial
+	// timeout go to the very end of the list and are started in the background (startPrefetch).
+	gFast, gSlow := giveupCases(tier, r)
+	cs = append(cs, gFast...)
+	var slowIn []string
+	for _, c := range gSlow {
+		slowIn = append(slowIn, c.Input)
+	}
+	if tier == "thorough" {
+		preWidth = 24
+	}
+	registerSlow(slowIn)
+	return append(append(slowCs, cs...), gSlow...)
 }
 
 func nontrivial(input, obs string) bool {
@@ -613,7 +783,7 @@ func nontrivial(input, obs string) bool {
 		switch o {
 		case "start", "trigger":
 			spawn = true
-		case "kill", "stop", "await":
+		case "kill", "stop", "await", "giveup":
 			end = true
 		}
 	}
@@ -737,7 +907,12 @@ func init() {
 			"being served by the goroutine the real handler started (nothing of the task is touched by the harness): every ordered pair from {start,stop,conf,trigger,kill} except two requests that both start a child, " +
 			"for basic and hook tasks with the child never started / running / ended (and before the TASK_RUNNING timer for the pairs with a KILL), the pairs with stop/kill/start for the other child behaviours (ign = ignores SIGTERM/SIGINT, fork, sig, fail, nobin), " +
 			"every pair of transitions for a controllable task (an overlapping KILL of a controllable task is outside the class), a task without data, and 40 (thorough 600) random schedules with one or two overlaps; the model answers with the SET of " +
-			"all interleavings of the atomic parts of the two requests (monitor: the observation must be one of them), Spec is the same predicate. non-trivial = >=2 requests/steps, a child was spawned and a stop/kill/await follows; distinct by input text",
+			"all interleavings of the atomic parts of the two requests (monitor: the observation must be one of them), Spec is the same predicate. " +
+			"NEVER READY, GROUP WITH DISPOSITIONS OF ITS OWN (tags class=unready-group, group=<leader>+<members>, class=giveup): controllable tasks that never open their control port and whose process GROUP has a leader (the wrapping shell / the binary exec'd directly) " +
+			"and members (the vh binary as helper, same group) that each obey SIGTERM, ignore SIGTERM only, or ignore SIGTERM and SIGINT — noport (leader alone), noportfork, noportkid, noportkidt, noportign, noportmix — in every way such a task can end: step `giveup` = the gRPC dial of Launch gives up " +
+			"(GRPC_DIAL_TIMEOUT = 30 s, a constant of the code: waited for in real time), TASK_FAILED is reported and the Launch goroutine TERM/INT/KILLs the group; `await` = the leader ends on its own while the executor is still dialling (nobody reaps it) and the launch fails afterwards; KILL and STOP while dialling; requests after the failure. " +
+			"Quick: every group x {giveup, await giveup} in a drawn shape + 4 drawn schedules around the failure (16 cases of >= 30 s, run in the background from the start of the run, 16 at a time) + every new group x {nothing, await, kill, stop, await kill} + giveup on tasks without a dial in progress; thorough: every group x 5 schedules x every shape. " +
+			"Survivors are looked for once nothing of the task is alive or 3 x (SIGTERM_TIMEOUT + SIGINT_TIMEOUT) after TASK_FAILED. non-trivial = >=2 requests/steps, a child was spawned and a stop/kill/await/giveup follows; distinct by input text",
 		Shrink: shrinkCands,
 		// wider search after a break: the quick stream under another seed (every case costs a process and >= 0.2 s)
 		Search:  func(r *rng.R) []fw.Case { return generate("quick", r) },
@@ -747,7 +922,7 @@ func init() {
 			return os.MkdirAll(work, 0o755)
 		},
 		TrustedBase: []string{
-			"harness/props/c17 (fake Mesos agent = decoder+sender, child scripts and the vh binary in child mode, fake OCC device, /proc scan for survivors by pid / process group / inherited environment, panic-trace parsing)",
+			"harness/props/c17 (fake Mesos agent = decoder+sender, child scripts and the vh binary in child mode — as a task's command and as a helper process inside a task's process group with its own SIGTERM/SIGINT dispositions —, fake OCC device, /proc scan for survivors by pid / process group / inherited environment, panic-trace parsing)",
 			"/repo/executor/verif_hook_c17.go (builds internalState as Run does and calls the real eventLoop)",
 			"Linux process/signal semantics, /bin/sh (dash)",
 		},
@@ -758,6 +933,8 @@ func init() {
 			"the fake OCC device obeys every transition of the teardown walk; a device that refuses (final TASK_KILLED path) is not exercised",
 			"log lines are used only as completion signals for handler paths that send nothing (no task, RPC down, non-hook trigger, KILL of a task that is not active)",
 			"overlaps: the second event is offered to the fake decoder as soon as eventLoop has taken the first, i.e. it is waiting when the first handler returns (two events in one chunk of the agent's stream); which interleaving then happens is the Go scheduler's choice — the model accepts all interleavings of its atomic parts (one part per request; three for startBasicTask), not finer ones (e.g. a KILL between two of the four reads of t.taskCmd in ensureBasicTaskKilled)",
+			"`giveup` is waited for in real time (GRPC_DIAL_TIMEOUT + 20 s, else reported as a hang, and only if it reproduces); the escalation that follows TASK_FAILED has no completion signal: the step ends when nothing of the task is alive or after 3 x (SIGTERM_TIMEOUT + SIGINT_TIMEOUT) = 15 s (the code's own bound is 5 s), and processes alive then are an observation only when a second run shows them too",
+			"which signals the members of an unready task's group received is not observed (a process cannot report a signal it ignores or dies of): of the launch failure's escalation only its outcome — who is alive — is compared, the signals are in the model (St.gsigs) and its theorems only",
 			"after an overlap with a STOP, whether the STOP signalled a child is read off /proc (dead, zombie or SIGKILL pending within 150 ms of the STOP's answer); a panic of startBasicTask's reaper goroutine that lands after the overlap's results were reported is attributed to that overlap",
 		},
 	})
